@@ -72,6 +72,20 @@ let dispatch (op : string) (x : v) : v =
       let ops = to_list to_sel ops in
       let (outs, fin) = (match mode with S "alias" -> M.history_alias st ops | _ -> M.history_copy st ops) in
       L [of_list (of_list of_nat) outs; of_list of_nat fin]
+  | "reader", [lens; ks] ->
+      let lens = to_list to_nat lens in
+      let st (x : M.status) : v = S (match x with M.Eof -> "eof" | M.Trunc -> "trunc" | M.Corrupt -> "corrupt" | M.OutOfFuel -> "fuel") in
+      of_list (fun k -> let k = to_nat k in L [of_opt of_nat (M.reader_m lens k); st (M.cut_status lens k)]) (args ks)
+  | "scan_file", [table; fuel; bytes] ->
+      let cls (x : v) : M.opclass =
+        match x with
+        | L [S "F"; n] -> M.Fixed (to_nat n) | L [S "L"; w] -> M.LenPre (to_nat w)
+        | L [S "2"] -> M.Line2 | L [S "S"] -> M.Stop | _ -> raise (Bad "class") in
+      let tbl = to_list (to_pair (fun b -> BZ.to_int (to_z b)) cls) table in
+      let classify (b : M.nat) : M.opclass option = List.assoc_opt (int_of_nat b) tbl in
+      let (chunks, status) = M.read_all classify (to_nat fuel) (to_list to_nat bytes) in
+      let st = S (match status with M.Eof -> "eof" | M.Trunc -> "trunc" | M.Corrupt -> "corrupt" | M.OutOfFuel -> "fuel") in
+      L [of_list (fun c -> I (BZ.of_int (List.length c))) chunks; st]
   | "ndist", [l; step] -> of_z (M.ndist (to_q l) (to_q step))
   | "gridlog", [lo; hi; n] -> of_list of_q (M.gridlog_m (to_q lo) (to_q hi) (to_nat n))
   | "rank", [chi] -> of_list of_nat (M.rank_m (to_list to_xnum chi))
